@@ -90,8 +90,12 @@ pub fn final_msg(method: &str, version: &str, status: u16, extra: &[(&str, &str)
         }
         (Framing::Length(_), BodySpec::Length(b)) => RespBody::Raw(b.clone()),
         (Framing::Close, BodySpec::NoHeader(b)) => RespBody::Raw(b.clone()),
-        // HTTP/1.0 response with a chunked header: close-delimited; the "body" is whatever follows
-        (Framing::Close, BodySpec::Chunked { chunks, .. }) => RespBody::Raw(chunks.concat()),
+        // HTTP/1.0 response with a chunked header (an HTTP/1.0 proxy passing an HTTP/1.1 origin's
+        // message through): close-delimited, and the body is the chunk-coded bytes as they are
+        (Framing::Close, BodySpec::Chunked { chunks, .. }) => {
+            let specs: Vec<ChunkSpec> = chunks.iter().map(|d| ChunkSpec { data: d.clone(), size_txt: format!("{:x}", d.len()), ext: String::new() }).collect();
+            RespBody::Raw(encode(&specs, "0", &[]).bytes)
+        }
         _ => RespBody::None,
     };
     m
